@@ -25,7 +25,7 @@ ASSUMPTIONS = [
 
 def floors(tier):
     return {"states_checked": 3000, "pairs_matched_bit_exact": 8000, "chains_skipping_an_iterate": 60, "restart_states_checked": 150,
-            "inherited_pairs_checked": 300, "operators_spd_checked": 2500, "diag_operators": 800, "diag_operators_with_zero_columns": 200, "diag_requested_again_after_in_place_edit": 300, "rejected_pair_then_failed_search_then_progress": 20, "second_continuations_from_one_checkpoint_object": 40, "switch_states_checked": 300, "switch_runs_traced_through_a_logger": 60, "diagonals_held_by_the_caller_re-read_after_later_extractions": 3000, "__nontrivial__": 150}
+            "inherited_pairs_checked": 300, "operators_spd_checked": 2500, "diag_operators": 800, "diag_operators_with_zero_columns": 200, "diag_operators_with_columns_of_order_1e-170_and_below": 150, "diag_requested_again_after_in_place_edit": 300, "rejected_pair_then_failed_search_then_progress": 20, "second_continuations_from_one_checkpoint_object": 40, "switch_states_checked": 300, "switch_runs_traced_through_a_logger": 60, "diagonals_held_by_the_caller_re-read_after_later_extractions": 3000, "__nontrivial__": 150}
 
 
 def cases(tier, seed):
@@ -280,6 +280,11 @@ def diag_case(spec, out, keys):
                     sk[:, i] = 0.0
                     yk[:, i] = 0.0
             out.count("diag_operators_with_zero_columns")
+        if n >= 2 and j % 5 == 4:
+            # magnitudes: a variable whose steps are of order 1e-170..1e-200 (not zero) while its gradient differences are not small
+            for i in rng.choice(n, size=int(rng.integers(1, max(2, n // 3))), replace=False):
+                sk[:, i] *= float(10.0 ** -rng.uniform(165, 200))
+            out.count("diag_operators_with_columns_of_order_1e-170_and_below")
         keep = np.einsum("ij,ij->i", sk, yk) > 1e-8 * np.linalg.norm(sk, axis=1) * np.linalg.norm(yk, axis=1)
         sk, yk = sk[keep], yk[keep]
         if sk.shape[0] == 0:
